@@ -515,6 +515,13 @@ def main():
         with open(OUT, "w") as f:
             f.write(text)
         print(f"tr_dataconstants: wrote {OUT}")
+        # build.sh reports BUILD-FAIL only for a MISSING .vo: remove the compiled dependents so that a failing
+        # re-compilation against the new constants cannot hide behind a stale object
+        for sub, base in (("Proofs", "DataGen"), ("Proofs", "DataGenRules"), ("Props", "C20")):
+            for ext in (".vo", ".vos", ".vok", ".glob"):
+                stale = os.path.join(ROOT, "coq", sub, base + ext)
+                if os.path.exists(stale):
+                    os.remove(stale)
     else:
         print("tr_dataconstants: unchanged")
     return 0
